@@ -26,13 +26,13 @@ def photo_params(cfg, rundir):
     srcs = cfg.get("sources", [])
     if len(srcs) == 1:
         L += ["PhotonSourceDistribution:", "  type: SingleStar", "  position: " + _vec(srcs[0], "m"),
-              "  luminosity: %r s^-1" % cfg.get("luminosity", 1e49)]
+              "  luminosity: %r s^-1" % cfg.get("discrete_luminosity", cfg.get("luminosity", 1e49))]
     elif len(srcs) > 1:
         fn = os.path.join(rundir, "sources.yml")
         with open(fn, "w") as f:
             f.write("number of sources: %d\n" % len(srcs))
             for i, s in enumerate(srcs):
-                f.write("source[%d]:\n  position: %s\n  luminosity: %r s^-1\n" % (i, _vec(s, "m"), cfg.get("luminosity", 1e49) * (1 + i)))
+                f.write("source[%d]:\n  position: %s\n  luminosity: %r s^-1\n" % (i, _vec(s, "m"), cfg.get("discrete_luminosity", cfg.get("luminosity", 1e49)) * (1 + i)))
         L += ["PhotonSourceDistribution:", "  type: AsciiFile", "  filename: " + fn]
     else:
         L += ["PhotonSourceDistribution:", "  type: None"]
